@@ -31,7 +31,7 @@ RULE = ("(a) seeded SPD systems (size 1..30, cond 10..1e8, Gram / banded-with-ne
         "A case = one system or one (dataset, objects); distinct by hash of (A, D) resp. (mask, kernel, data, noise, B); "
         "non-trivial = the unconstrained solution has at least one negative entry (the constraint is active) or a parameter is forced to zero")
 BOUNDS = {"quick": "1500 systems x 5 warm-start modes + 3 solver entry points; 96 inversions x up to 10 settings",
-          "thorough": "120000 systems; 6000 inversions"}
+          "thorough": "60000 systems; 6000 inversions"}
 EXHAUSTIVE = {"quick": False, "thorough": False}
 ASSUMPTIONS = ["when the settings force *every* parameter to zero the reduced system is empty and the code raises InversionException; counted as out of domain",
                "KKT tolerance tau = 1e-9*(||A||2*||s||+||D||); backward error 1e-10 for the unconstrained solver",
@@ -45,7 +45,7 @@ MIN_MONITORS = {"*": {"kkt.solver": 100, "kkt.solver.warm": 50, "backward.uncons
 
 
 def plan(tier, seed):
-    ns = 1500 if tier == "quick" else 120000
+    ns = 1500 if tier == "quick" else 60000
     ni = 96 if tier == "quick" else 6000
     s1 = 100 if tier == "quick" else 500
     s2 = 3 if tier == "quick" else 15
